@@ -2,7 +2,7 @@
 (* Judge for C36: one "apply" line = one change event handed to the real code,
    with the sink calls it made (raw keys) and, for the local sink, the directory
    tree afterwards.  tree = the local sink's file tree before the event. *)
-EXTENDS ReplMap, TraceKit
+EXTENDS ReplMap, ReplBytes, TraceKit
 VARIABLE tree
 tvars == <<vars, tree, kitvars>>
 
@@ -30,6 +30,43 @@ TApply == /\ IsEvent("apply") /\ Ev.err = ""
                       /\ Admit(cfg, Ev, Ev.calls)
                       /\ LocalRenameRewritesOld(cfg, Ev, tree, T2)
           /\ UNCHANGED vars
-TraceNext == TraceReset \/ TraceSkip \/ TApply
+(* "capply": the same, but the entries of the event carry real chunks on a real volume server
+   (Ev.nch / Ev.nsz: chunk list and size attribute of the new entry) and no inline content:
+   the mirrored file must hold the bytes ReplBytes.tla gives that chunk list *)
+TCApply == /\ IsEvent("capply") /\ Ev.err = "" /\ cfg.sink = "local"
+           /\ LET T2 == FilesOf(Ev.tree)
+                  content == IF Ev.new = <<>> THEN "" ELSE ContentOf(Ev.nch, Ev.nsz)
+                  eC == [oc |-> "", nc |-> ""] @@ Ev
+                  eT == [oc |-> "", nc |-> content] @@ Ev
+              IN /\ tree' = T2
+                 /\ \/ /\ Strict
+                       /\ Admit(cfg, eC, Ev.calls)
+                       /\ TreeOk(cfg, eT, tree, T2)
+                    \/ /\ Deviate("C36-sync-rename-into-dropped")
+                       /\ RenameIntoDropped(cfg, eC, Ev.calls)
+                       /\ T2 = tree
+                    \/ /\ Deviate("C36-localsink-rename-rewrites-old")
+                       /\ Admit(cfg, eC, Ev.calls)
+                       /\ LocalRenameRewritesOld(cfg, eT, tree, T2)
+           /\ UNCHANGED vars
+
+(* "bop": one mutation of the source through the real filer while the real filer.backup round
+   runs; Ev.src = the source entries as the filer lists them afterwards, Ev.tree = the sink
+   directory once everything published before the marker has been applied *)
+SrcFilesOf(s) == LET I == {i \in 1..Len(s) : s[i].k = "f"}
+                 IN [p \in {s[i].p : i \in I} |->
+                       LET r == s[CHOOSE i \in I : s[i].p = p]
+                       IN IF r.c # "" THEN r.c ELSE ContentOf(r.ch, r.sz)]
+TBop == /\ IsEvent("bop") /\ ~Ev.timeout /\ cfg.mode = "backup"
+        /\ LET T2 == FilesOf(Ev.tree)
+           IN /\ tree' = T2
+              /\ Strict
+              /\ MirrorOk(cfg, SrcFilesOf(Ev.src), T2)
+        /\ UNCHANGED vars
+
+(* "pre": a mutation of the source that is not observed on its own (before the round starts) *)
+TPre == IsEvent("pre") /\ Strict /\ cfg.mode = "backup" /\ UNCHANGED <<vars, tree>>
+
+TraceNext == TraceReset \/ TraceSkip \/ TApply \/ TCApply \/ TBop \/ TPre
 TraceSpec == TraceInit /\ [][TraceNext]_tvars
 =============================================================================
